@@ -1,4 +1,4 @@
-import Sympler.ExprEmitLemmas
+import Sympler.ExprUsualLemmas
 
 /-!
 # C03 — a runtime-compiled expression computes what the expression language defines
@@ -66,5 +66,334 @@ theorem C03_emit_sound (env : Env) (t : Tree) (hwf : t.wf = true) (strs : List S
     · exact evalC_of_good a6
     · exact evalC_of_good a7
     · exact evalC_of_good a8
+
+/-- `C03_emit_sound` for what the parser accepts: every accepted expression text. -/
+theorem C03_emit_sound_parsed (env : Env) (text : String) (t : Tree)
+    (hp : parse (env.decls.map (·.name)) text = .ok t) (strs : List String) (v : Val Rat)
+    (hc : toC env t = .ok strs) (hv : denote env t = .ok v) :
+    strs.length = v.toList.length ∧ ∀ p ∈ strs.zip v.toList, CompiledAgrees env p.1 p.2 :=
+  C03_emit_sound env t (parse_wf hp) strs v hc hv
+
+/-- **Totality.**  `parse` is a total function (structural recursion on fuel, no `partial`); the fuel
+`length + 1` it supplies is never exhausted: for every text and every symbol table the result is a tree
+or one of the genuine outcomes of the real code (an error, `hang`, `crash`), never `fuel`.
+Side condition on the generated table (`factories_names_ne_nil`, by `decide`): no operator or function
+has the empty name. -/
+theorem C03_total (syms : List String) (text : String) :
+    (∃ t, parse syms text = .ok t) ∨ (∃ e, parse syms text = .error e ∧ e ≠ .fuel) := by
+  cases h : parse syms text with
+  | ok t => exact Or.inl ⟨t, rfl⟩
+  | error e =>
+    refine Or.inr ⟨e, rfl, ?_⟩
+    intro he
+    subst he
+    exact parse_ne_fuel syms text h
+
+/-! ## The parser: precedence and associativity -/
+
+/-- **The grammar of the parser.**  For every surface expression `e` of the grammar `SE.ok` — one
+precedence level per binary operator in the order of the GENERATED table (`+ - * / : ° @ ^`, loosest
+first), every operator left-associative, a unary minus in front of a term of level `*` or tighter,
+function applications `f(e)`, any number of redundant brackets, atoms admitted by `SE.atomOK` —
+the parser reads the text `e.render` as exactly the tree `e` stands for (errors of unresolvable atoms
+included, in the same order).
+Side conditions tying the statement to the generated table, all by `decide`: `factories_split` (the
+binary operators come first, in the order that defines `BinOp.prec`, one character each),
+`table_functions_ok` (every registered function is recognised in front of a bracket),
+`factories_names_noparen`, `factories_names_ne_nil`.  A changed priority or registration order falsifies
+`factories_split`.
+EXCLUDED by the decidable predicate `SE.atomOK`: atoms in which the parser's own search finds an operator
+or a function name (`Temp`, `expo`, `absa`, `a-b`, `1e-5`); see `C03_name_clash_witness`. -/
+theorem C03_parse_render_sym (syms : List String) (e : SE) (hok : e.ok = true) :
+    parse syms (String.ofList e.render) = e.toTree (fun n => syms.contains n) := by
+  unfold parse
+  rw [String.toList_ofList]
+  exact parse_render_sym _ _ e hok (Nat.lt_succ_self _)
+
+/-- **Usual precedence and associativity.**  For every surface expression `u` of the USUAL grammar
+`SE.okU` (sums/differences of products/quotients of tensor-operator chains of powers of atoms;
+`+ -` one level and `* /` one level, both left-associative; unary minus as the sign of the first term of
+a sum; atoms are names, numbers, `[v]`, `{T}`, function applications and bracketed expressions, with any
+number of redundant brackets): the parser's reading of the text `u.render` REFINES the usual reading `u`:
+
+* either some atom cannot be resolved — then both report the same error;
+* or the parser builds a tree `ts`, the usual reading is the tree `tu`, and whenever the interpreter
+  evaluates `ts` to a value `v` it evaluates `tu` to the same `v`
+  (the parser groups `a-b+c-d` as `(a-b)+(c-d)` and `a/b*c/d` as `(a/b)*(c/d)`; the values agree over
+  the rationals, division by zero being an error on both sides).
+
+The converse direction fails: the parser's grouping can be ill-typed where the usual one is not
+(`C03_usual_reading_rejected_witness`) — the expression is then rejected, not misread. -/
+theorem C03_parse_render (env : Env) (u : SE) (hu : u.okU = true) :
+    Refines env (parse (env.decls.map (·.name)) (String.ofList u.render))
+      (u.toTree (fun n => (env.decls.map (·.name)).contains n)) := by
+  have h1 := C03_parse_render_sym (env.decls.map (·.name)) u.resym (SE.ok_resym u hu)
+  rw [SE.render_resym] at h1
+  rw [h1]
+  exact SE.refines_resym env _ u
+
+/-- `Refines` spelled out for an accepted expression -/
+theorem C03_parse_render_value (env : Env) (u : SE) (hu : u.okU = true) (ts : Tree) (v : Val Rat)
+    (hp : parse (env.decls.map (·.name)) (String.ofList u.render) = .ok ts)
+    (hv : denote env ts = .ok v) :
+    ∃ tu, u.toTree (fun n => (env.decls.map (·.name)).contains n) = .ok tu ∧ denote env tu = .ok v := by
+  have h := C03_parse_render env u hu
+  rw [hp] at h
+  cases htu : u.toTree (fun n => (env.decls.map (·.name)).contains n) with
+  | error e => rw [htu] at h; exact h.elim
+  | ok tu => rw [htu] at h; exact ⟨tu, rfl, h v hv⟩
+
+/-! ## `denote` is the documented meaning (`sympler --help expressions`)
+
+`denote` is the transcription of the interpreter `value()`, so `C03_emit_sound` is "compiled =
+interpreter".  The lemmas below state, operator by operator, that this transcription is the documented
+mathematical meaning, with explicit indices (`i j k : Fin 3`, row `i`, column `j`). -/
+
+def V3.get {α : Type} (a : V3 α) (i : Fin 3) : α :=
+  match i with
+  | 0 => a.x | 1 => a.y | 2 => a.z
+
+def M9.get {α : Type} (a : M9 α) (i j : Fin 3) : α :=
+  match i, j with
+  | 0, 0 => a.xx | 0, 1 => a.xy | 0, 2 => a.xz
+  | 1, 0 => a.yx | 1, 1 => a.yy | 1, 2 => a.yz
+  | 2, 0 => a.zx | 2, 1 => a.zy | 2, 2 => a.zz
+
+/-- `Σ_{i<3} f i` -/
+def sum3 (f : Fin 3 → Rat) : Rat := f 0 + f 1 + f 2
+
+theorem fin3_forall {P : Fin 3 → Prop} (h0 : P 0) (h1 : P 1) (h2 : P 2) : ∀ i, P i := by
+  intro ⟨i, hi⟩
+  have : i = 0 ∨ i = 1 ∨ i = 2 := by omega
+  rcases this with h | h | h <;> subst h <;> assumption
+
+/-- `Vector:Vector` is the scalar product `Σᵢ aᵢ bᵢ` -/
+theorem C03_denote_meaning_contract_vv (env : Env) (a b : V3 Rat) :
+    evalBin env .contract (.v a) (.v b) = .ok (.s (sum3 fun i => a.get i * b.get i)) := rfl
+
+/-- `Matrix:Matrix` is the full contraction `Σᵢ Σⱼ aᵢⱼ bᵢⱼ` -/
+theorem C03_denote_meaning_contract_tt (env : Env) (a b : M9 Rat) :
+    evalBin env .contract (.t a) (.t b) =
+      .ok (.s (sum3 fun i => sum3 fun j => a.get i j * b.get i j)) := by
+  show Except.ok (Val.s (dot9 a b)) = _
+  simp only [dot9, sum3, M9.get]
+  congr 2
+  grind
+
+/-- `Matrix:Vector` is the matrix-vector product `rᵢ = Σⱼ aᵢⱼ bⱼ` -/
+theorem C03_denote_meaning_contract_tv (env : Env) (a : M9 Rat) (b : V3 Rat) :
+    ∃ r, evalBin env .contract (.t a) (.v b) = .ok (.v r) ∧
+      ∀ i, r.get i = sum3 fun j => a.get i j * b.get j :=
+  ⟨matVec a b, rfl, fin3_forall rfl rfl rfl⟩
+
+/-- `°` is the matrix product `rᵢⱼ = Σₖ aᵢₖ bₖⱼ` -/
+theorem C03_denote_meaning_dot (env : Env) (a b : M9 Rat) :
+    ∃ r, evalBin env .dot (.t a) (.t b) = .ok (.t r) ∧
+      ∀ i j, r.get i j = sum3 fun k => a.get i k * b.get k j :=
+  ⟨matMul a b, rfl, fin3_forall (fin3_forall rfl rfl rfl) (fin3_forall rfl rfl rfl)
+    (fin3_forall rfl rfl rfl)⟩
+
+/-- `@` is the outer product `rᵢⱼ = aᵢ bⱼ` -/
+theorem C03_denote_meaning_outer (env : Env) (a b : V3 Rat) :
+    ∃ r, evalBin env .outer (.v a) (.v b) = .ok (.t r) ∧ ∀ i j, r.get i j = a.get i * b.get j :=
+  ⟨outer3 a b, rfl, fin3_forall (fin3_forall rfl rfl rfl) (fin3_forall rfl rfl rfl)
+    (fin3_forall rfl rfl rfl)⟩
+
+/-- `T` is the transpose `rᵢⱼ = aⱼᵢ` -/
+theorem C03_denote_meaning_T (env : Env) (a : M9 Rat) :
+    ∃ r, evalFn env .T (.t a) = .ok (.t r) ∧ ∀ i j, r.get i j = a.get j i :=
+  ⟨_, rfl, fin3_forall (fin3_forall rfl rfl rfl) (fin3_forall rfl rfl rfl) (fin3_forall rfl rfl rfl)⟩
+
+/-- `det` is the Leibniz formula: the sum over the six permutations of `{0,1,2}` with their signs -/
+theorem C03_denote_meaning_det (env : Env) (a : M9 Rat) :
+    evalFn env .det (.t a) = .ok (.s (
+      a.get 0 0 * a.get 1 1 * a.get 2 2 - a.get 0 0 * a.get 1 2 * a.get 2 1
+      - a.get 0 1 * a.get 1 0 * a.get 2 2 + a.get 0 1 * a.get 1 2 * a.get 2 0
+      + a.get 0 2 * a.get 1 0 * a.get 2 1 - a.get 0 2 * a.get 1 1 * a.get 2 0)) := by
+  show Except.ok (Val.s (det9 a)) = _
+  simp only [det9, M9.get]
+  congr 2
+  grind
+
+/-- `trace` is `Σᵢ aᵢᵢ` -/
+theorem C03_denote_meaning_trace (env : Env) (a : M9 Rat) :
+    evalFn env .trace (.t a) = .ok (.s (sum3 fun i => a.get i i)) := rfl
+
+/-- `Q(Matrix)` is `Matrix:Matrix` -/
+theorem C03_denote_meaning_Q (env : Env) (a : M9 Rat) :
+    evalFn env .Q (.t a) = evalBin env .contract (.t a) (.t a) := rfl
+
+/-- `diagMat`, `idMat`, `unitMat`, `xyMat` entry by entry -/
+theorem C03_denote_meaning_matrices (env : Env) (v : V3 Rat) (d : Rat) (a : M9 Rat) :
+    (∃ r, evalFn env .diagMat (.v v) = .ok (.t r) ∧ ∀ i j, r.get i j = if i = j then v.get i else 0) ∧
+    (∃ r, evalFn env .idMat (.s d) = .ok (.t r) ∧ ∀ i j, r.get i j = if i = j then d else 0) ∧
+    (∃ r, evalFn env .unitMat (.s d) = .ok (.t r) ∧ ∀ i j, r.get i j = d) ∧
+    (∃ r, evalFn env .xyMat (.t a) = .ok (.t r) ∧
+      ∀ i j, r.get i j = if i = 2 ∨ j = 2 then 0 else a.get i j) :=
+  ⟨⟨_, rfl, fin3_forall (fin3_forall rfl rfl rfl) (fin3_forall rfl rfl rfl) (fin3_forall rfl rfl rfl)⟩,
+   ⟨_, rfl, fin3_forall (fin3_forall rfl rfl rfl) (fin3_forall rfl rfl rfl) (fin3_forall rfl rfl rfl)⟩,
+   ⟨_, rfl, fin3_forall (fin3_forall rfl rfl rfl) (fin3_forall rfl rfl rfl) (fin3_forall rfl rfl rfl)⟩,
+   ⟨_, rfl, fin3_forall (fin3_forall rfl rfl rfl) (fin3_forall rfl rfl rfl) (fin3_forall rfl rfl rfl)⟩⟩
+
+/-- `idVec`, `uVecX|Y|Z`, `x|y|zCoord` -/
+theorem C03_denote_meaning_vectors (env : Env) (d : Rat) (v : V3 Rat) :
+    evalFn env .idVec (.s d) = .ok (.v ⟨d, d, d⟩) ∧
+    evalFn env .uVecX (.s d) = .ok (.v ⟨d, 0, 0⟩) ∧ evalFn env .uVecY (.s d) = .ok (.v ⟨0, d, 0⟩) ∧
+    evalFn env .uVecZ (.s d) = .ok (.v ⟨0, 0, d⟩) ∧
+    evalFn env .xCoord (.v v) = .ok (.s (v.get 0)) ∧ evalFn env .yCoord (.v v) = .ok (.s (v.get 1)) ∧
+    evalFn env .zCoord (.v v) = .ok (.s (v.get 2)) :=
+  ⟨rfl, rfl, rfl, rfl, rfl, rfl, rfl⟩
+
+/-- `+ - *` component-wise on equal types, `*` and `/` broadcast a scalar; `step`, `stpVal`, `abs`,
+unary minus component-wise -/
+theorem C03_denote_meaning_componentwise (env : Env) (a b : V3 Rat) (s : Rat) :
+    evalBin env .add (.v a) (.v b) = .ok (.v ⟨a.x + b.x, a.y + b.y, a.z + b.z⟩) ∧
+    evalBin env .sub (.v a) (.v b) = .ok (.v ⟨a.x - b.x, a.y - b.y, a.z - b.z⟩) ∧
+    evalBin env .mul (.v a) (.v b) = .ok (.v ⟨a.x * b.x, a.y * b.y, a.z * b.z⟩) ∧
+    evalBin env .mul (.s s) (.v b) = .ok (.v ⟨s * b.x, s * b.y, s * b.z⟩) ∧
+    evalBin env .mul (.v a) (.s s) = .ok (.v ⟨s * a.x, s * a.y, s * a.z⟩) ∧
+    (s ≠ 0 → evalBin env .div (.v a) (.s s) = .ok (.v ⟨a.x / s, a.y / s, a.z / s⟩)) ∧
+    evalFn env .step (.v a) = .ok (.v ⟨if a.x > 0 then 1 else 0, if a.y > 0 then 1 else 0,
+      if a.z > 0 then 1 else 0⟩) ∧
+    evalFn env .stpVal (.s s) = .ok (.s (if s > 0 then s else 0)) ∧
+    evalFn env (.lib "abs" "fabs") (.s s) = .ok (.s (if s < 0 then -s else s)) := by
+  refine ⟨rfl, rfl, rfl, rfl, rfl, ?_, rfl, rfl, rfl⟩
+  intro hs
+  simp [evalBin, Val.mapM, V3.mapM, divRat, hs, bind, Except.bind, pure, Except.pure]
+
+/-- `^` with an integral exponent is the repeated product resp. its reciprocal -/
+theorem C03_denote_meaning_pow (env : Env) (a : Rat) (n : Nat) (hn : n ≤ maxExp) :
+    evalBin env .pow (.s a) (.s (n : Rat)) = .ok (.s (a ^ n)) ∧
+    (a ≠ 0 → evalBin env .pow (.s a) (.s (-(n : Rat))) = .ok (.s (1 / a ^ n))) := by
+  have hlt : ¬ maxExp < n := by omega
+  constructor
+  · simp [evalBin, powRat, hlt, bind, Except.bind, pure, Except.pure]
+  · intro ha
+    by_cases h0 : n = 0
+    · subst h0
+      simp [evalBin, powRat, bind, Except.bind, pure, Except.pure]
+      grind
+    · simp [evalBin, powRat, hlt, h0, ha, bind, Except.bind, pure, Except.pure]
+
+/-! ## Example environment (non-vacuity, witnesses) -/
+
+/-- scalars `a b c` (slots 0 1 2), vectors `[u] [w]`, tensors `{A} {B}`; the double in slot `k` is `k+1`;
+the libm oracles decline -/
+def exEnv : Env :=
+  { decls := [⟨"a", .scalar, 0⟩, ⟨"b", .scalar, 1⟩, ⟨"c", .scalar, 2⟩, ⟨"[u]", .vector, 3⟩,
+              ⟨"[w]", .vector, 6⟩, ⟨"{A}", .tensor, 9⟩, ⟨"{B}", .tensor, 18⟩]
+    mem := fun k => (k : Rat) + 1
+    lib := fun _ _ => .error .opaque
+    powf := fun _ _ => .error .opaque
+    piv := .error .opaque }
+
+def exSyms : List String := exEnv.decls.map (·.name)
+
+/-- parse, then run `f` on the tree -/
+def withTree {α : Type} (syms : List String) (text : String) (f : Tree → Except Err α) : Except Err α :=
+  parse syms text >>= f
+
+/-- non-vacuity of `C03_emit_sound`: accepted, typed, emitted and evaluated expressions
+(`a-b-c = 1-2-3`, `a/b*c/b`, `-a^2*b`, `{A}:[u]`, `det(T({A})°{B})`) -/
+example : withTree exSyms "a-b-c" (denote exEnv) = .ok (.s (-4)) := by decide +kernel
+example : withTree exSyms "a/b*c/b" (denote exEnv) = .ok (.s (3/4)) := by decide +kernel
+example : withTree exSyms "-a^2*b" (denote exEnv) = .ok (.s (-2)) := by decide +kernel
+example : (withTree exSyms "{A}:[u]" (toC exEnv)).map List.length = .ok 3 := by decide +kernel
+example : (withTree exSyms "det(T({A})°{B})" (toC exEnv)).map List.length = .ok 1 := by decide +kernel
+example : withTree exSyms "a-b*c" (fun t => do
+    let strs ← toC exEnv t
+    strs.mapM (evalC exEnv)) = (withTree exSyms "a-b*c" (denote exEnv)).map Val.toList := by
+  decide +kernel
+
+/-! ## Findings: what the real code does, proved on the model for concrete witnesses
+(every one of them was replayed on the real parser by the harness) -/
+
+/-- FINDING (compiled ≠ interpreter): sums of `step(..)` are C `int`s, `int/int` truncates.
+`step(a)/(step(b)+step(c))` with positive `a b c`: the interpreter gives `1/2`, the emitted C text is an
+integer division (`evalC` reports `intTrunc`; gcc's code returns `0`).  This is why `C03_emit_sound`
+carries the `intTrunc` alternative. -/
+theorem C03_int_division_witness :
+    withTree exSyms "step(a)/(step(b)+step(c))" (denote exEnv) = .ok (.s (1/2)) ∧
+    withTree exSyms "step(a)/(step(b)+step(c))" (fun t => do
+      let strs ← toC exEnv t
+      strs.mapM (evalC exEnv)) = .error .intTrunc := by
+  decide +kernel
+
+/-- FINDING: `int / int` with divisor 0 (`idMat(1)/idMat(2)`: the off-diagonal `(0)/(0)`): the interpreter
+computes `nan`, the compiled code executes an integer division by zero (SIGFPE / `ud2`). -/
+theorem C03_int_div0_witness :
+    withTree exSyms "idMat(1)/idMat(2)" (fun t => do
+      let c ← toCE exEnv t
+      evalCX exEnv (c.toList.getD 1 .mpi).abs) = .error .intDiv0 := by
+  decide +kernel
+
+/-- FINDING: the bracket loop of `parseThis` never terminates on `((a`. -/
+theorem C03_hang_witness : parse exSyms "((a" = .error .hang := by decide +kernel
+
+/-- FINDING: `(())` strips to the empty string, `string(expr, 1, …)` throws `std::out_of_range`
+(not a `gError`: the process aborts). -/
+theorem C03_crash_witness : parse exSyms "(())" = .error .crash := by decide +kernel
+
+/-- FINDING: `FNPower::toC` evaluates the exponent with the NULL value pointers of production; a vector
+or tensor variable in the exponent is dereferenced: segmentation fault. -/
+theorem C03_pow_crash_witness : withTree exSyms "a^([u]:[w])" (toC exEnv) = .error .crash := by
+  decide +kernel
+
+/-- FINDING (silently another meaning): with the declared scalars `a` and `absa`, the text `absa` is read
+as `abs(a)`; likewise `sinus` is `sin(us)`, `Temp` is `T(emp)`, … -/
+theorem C03_name_clash_witness :
+    parse ["a", "absa"] "absa" = .ok (.fn (.lib "abs" "fabs") (.sym "a")) := by decide +kernel
+
+/-- … and a declared scalar `Temp` alone cannot be used at all. -/
+theorem C03_name_clash_reject_witness : parse ["Temp"] "Temp" = .error .unknownSymbol := by
+  decide +kernel
+
+/-- OBSERVATION: interpreter and emitter disagree on what they accept: `a:b` on two scalars is
+evaluated by `value()` (as the product) and rejected by `toC()`. -/
+theorem C03_scalar_contraction_witness :
+    withTree exSyms "a:b" (denote exEnv) = .ok (.s 2) ∧
+    withTree exSyms "a:b" (toC exEnv) = .error .type := by decide +kernel
+
+/-- OBSERVATION: `^` associates to the LEFT (`2^3^2 = 64`). -/
+theorem C03_power_left_assoc_witness :
+    parse exSyms "2^3^2" = .ok (.bin .pow (.bin .pow (.num "2") (.num "3")) (.num "2")) ∧
+    withTree exSyms "2^3^2" (denote exEnv) = .ok (.s 64) := by decide +kernel
+
+/-- rejected, not misread: exponent notation with a sign, a sign after an operator -/
+theorem C03_reject_witness :
+    parse exSyms "1e-5" = .error .unknownSymbol ∧ parse exSyms "2e+06" = .error .unknownSymbol ∧
+    parse exSyms "a*-b" = .error .emptyOperand ∧ parse exSyms "a^-2" = .error .emptyOperand ∧
+    parse exSyms "()" = .error .emptyBracket := by decide +kernel
+
+/-! ## Non-vacuity of the grammar theorems -/
+
+def atm (s : String) : SE := .atom s.toList
+
+/-- `a-b-c`, `a/b*c/b`, `-a^2*b`, `{A}:[u]`, `det(T({A})°{B})`, `((a))+(b*(c))` belong to the usual grammar -/
+example : (SE.bin .sub (.bin .sub (atm "a") (atm "b")) (atm "c")).okU = true ∧
+    String.ofList (SE.bin .sub (.bin .sub (atm "a") (atm "b")) (atm "c")).render = "a-b-c" := by decide
+example : (SE.bin .div (.bin .mul (.bin .div (atm "a") (atm "b")) (atm "c")) (atm "b")).okU = true ∧
+    String.ofList (SE.bin .div (.bin .mul (.bin .div (atm "a") (atm "b")) (atm "c")) (atm "b")).render =
+      "a/b*c/b" := by decide
+example : (SE.neg (.bin .mul (.bin .pow (atm "a") (atm "2")) (atm "b"))).okU = true ∧
+    String.ofList (SE.neg (.bin .mul (.bin .pow (atm "a") (atm "2")) (atm "b"))).render = "-a^2*b" := by
+  decide
+example : (SE.bin .contract (atm "{A}") (atm "[u]")).okU = true := by decide
+example : (SE.fn .det (.bin .dot (.fn .T (atm "{A}")) (atm "{B}"))).okU = true ∧
+    String.ofList (SE.fn .det (.bin .dot (.fn .T (atm "{A}")) (atm "{B}"))).render = "det(T({A})°{B})" := by
+  decide
+example : (SE.bin .add (.paren (.paren (atm "a"))) (.paren (.bin .mul (atm "b") (.paren (atm "c"))))).okU = true := by
+  decide
+/-- … and names that clash are not atoms -/
+example : SE.atomOK "Temp".toList = false ∧ SE.atomOK "absa".toList = false ∧
+    SE.atomOK "1e-5".toList = false ∧ SE.atomOK "aT".toList = true ∧ SE.atomOK "[rij]".toList = true := by
+  decide
+
+/-- OBSERVATION (rejected, not misread): `[u]*a/[w]` is well typed in the usual reading
+`([u]*a)/[w]`; the parser groups `[u]*(a/[w])`, whose `scalar/vector` is a type error. -/
+theorem C03_usual_reading_rejected_witness :
+    withTree exSyms "[u]*a/[w]" (denote exEnv) = .error .type ∧
+    denote exEnv (.bin .div (.bin .mul (.sym "[u]") (.sym "a")) (.sym "[w]")) =
+      .ok (.v ⟨4/7, 5/8, 2/3⟩) := by decide +kernel
 
 end Sympler.Expr
